@@ -385,6 +385,11 @@ def engine_a_check(pid, tier, jobs, required_reach, assumptions, level_note, out
                 out.unconfirmed.append("reach witness of %s/%s does not reproduce natively: %s" % (h, lab, json.dumps(ev)[:300]))
             else:
                 fails = [e for e in ev if e["kind"] == "assert-fail" and e["label"] == lab]
+                if not fails and v.get("kind") == "global-store" and not any(e["kind"] == "mismatch" for e in ev):
+                    # a store into a package-level variable has no native observation point of its own; it is
+                    # confirmed when the witness replays natively along the same path (no mismatch): the store
+                    # instruction is on that path
+                    fails = [{"class": v.get("class", "")}]
                 if not fails and any(e["kind"] == "crash" for e in ev):
                     fails = [{"class": v.get("class", "")}]
                     v["detail"] = (v.get("detail") or "") + " - the native replay of this counterexample killed the test process (fatal error): " + [e for e in ev if e["kind"] == "crash"][0]["detail"][-160:].replace("\n", " ")
@@ -695,7 +700,8 @@ def c13(tier):
     jobs = [T("transformer", "VerifC13_PrinterFrozen", {"N": W(tier, 1, 2)}),
             T("transformer", "VerifC02_Shapes", {"NODES": 4, "DEPTH": 2, "WIDTH": 3}),
             T("transformer", "VerifC08_PrinterDegenerate", {"NODES": 3, "DEPTH": 2}),
-            T("graph", "VerifC13_GraphHistory"), fam(6, "K", **FIRST),
+            T("graph", "VerifC13_GraphHistory"), fam(6, "K", **FIRST), fam(6, "J", **FIRST), fam(6, "H", **FIRST),
+            T("transformer", "VerifC07_Merge", {"SCEN": 0, "F": 2, "DECLS": 2, "RELS": 1, "CONDS": 1, "FAULTS": 1, "N": 1, "NR": 1}),
             T("transformer", "VerifC07_Merge", {"SCEN": 2, "N": 1, "NR": 1})]
     out = engine_a_check("C13", tier, jobs, {"VerifC13_PrinterFrozen": ["printed"], "VerifC02_Shapes": ["accepted"], "VerifC08_PrinterDegenerate": ["accepted"],
                                              "VerifC13_GraphHistory": ["built"], "VerifGraph_Family": ["return"], "VerifC07_Merge": ["accepted"]},
